@@ -103,6 +103,11 @@ class ParCons(RankAggAlgorithm, PairwiseBasedAlgorithm):
             else:
                 # creation of a new Dataset representing the sub-problem
                 sub_problem = dataset.sub_problem_from_elements(set_current_elements)
+                # the rankings that contain no element of the sub-problem are not in the projection, but they
+                # still induce costs (pairs of non-ranked elements): they are kept as empty rankings
+                nb_rankings_lost: int = dataset.nb_rankings - sub_problem.nb_rankings
+                if nb_rankings_lost > 0:
+                    sub_problem = Dataset(sub_problem.rankings + [Ranking([])] * nb_rankings_lost)
                 if len(scc_i) > self._bound_for_exact:
                     cons_ext = self._auxiliary_alg.compute_consensus_rankings(
                         sub_problem, scoring_scheme, True).consensus_rankings[0]
